@@ -1,7 +1,7 @@
 (* Property C18 -- data URL views are coherent and reassemble the original.  Statements only. *)
 From Coq Require Import List NArith Bool Arith.
 Import ListNotations.
-Require Import V.Regex V.Parse V.DataUrl V.DataUrlProofs.
+Require Import V.Regex V.Parse V.DataUrl V.DataUrlProofs V.DataUrlProofs2.
 Local Open Scope nat_scope.
 
 (* whenever the delimiter parser accepts a text (what both constructors run after the URI validator), the
@@ -16,6 +16,42 @@ Theorem C18_coherent : forall u d, dparse u = Some d ->
     b_media_type u = Some media /\ b_base64 u = Some (o_base64 d) /\ b_data u = Some data.
 Proof. exact dataurl_coherent. Qed.
 Print Assumptions C18_coherent.
+
+(* REASSEMBLY: the owned accessors put back together are the original text, byte for byte *)
+Theorem C18_reassemble : forall u d, dparse u = Some d ->
+  DATA ++ o_media_type u d ++ (if o_base64 d then B64 else []) ++ COMMA :: o_data u d = u.
+Proof. intros u d H. destruct (dataurl_coherent u d H) as (media & data & Hu & _ & -> & -> & _). symmetry. exact Hu. Qed.
+Print Assumptions C18_reassemble.
+
+(* CONVERSE: every text of the data-URL shape is accepted, with the offsets of that shape (so the views of a text
+   BUILT from a media type, a flag and a payload are that media type, flag and payload); the accepted texts are
+   exactly the texts of the shape; one text has one decomposition *)
+Theorem C18_parse_complete : forall media (b : bool) data, Forall (fun c => mt_char c = true) media ->
+  dparse (DATA ++ media ++ (if b then B64 else []) ++ COMMA :: data) =
+  Some (5 + length media, b, 5 + length media + (if b then 8 else 1)).
+Proof. exact dparse_complete. Qed.
+Print Assumptions C18_parse_complete.
+Theorem C18_accepts_exactly : forall u, (exists d, dparse u = Some d) <->
+  exists media (b : bool) data, Forall (fun c => mt_char c = true) media /\ u = DATA ++ media ++ (if b then B64 else []) ++ COMMA :: data.
+Proof. exact dparse_accepts_iff. Qed.
+Print Assumptions C18_accepts_exactly.
+Theorem C18_views_of_built_text : forall media (b : bool) data, Forall (fun c => mt_char c = true) media ->
+  let u := DATA ++ media ++ (if b then B64 else []) ++ COMMA :: data in
+  exists d, dparse u = Some d /\ o_media_type u d = media /\ o_base64 d = b /\ o_data u d = data /\ b_media_type u = Some media /\ b_base64 u = Some b /\ b_data u = Some data.
+Proof.
+  intros media b data Hm u. pose proof (dparse_complete media b data Hm) as P. fold u in P.
+  eexists. split; [exact P|]. destruct (dataurl_coherent u _ P) as (m & dd & Hu & Hm' & Ho & Hd & Hbm & Hbb & Hbd).
+  unfold o_base64 in Hu, Hbb |- *. cbn [fst snd] in Hu, Hbb |- *. unfold u in Hu at 1.
+  destruct (dataurl_unique _ _ _ _ _ _ Hm Hm' Hu) as (Em & _ & Ed). subst m dd.
+  rewrite <- Em in Hbm |- *. rewrite <- Ed in Hbd |- *. repeat split; try assumption; reflexivity.
+Qed.
+Print Assumptions C18_views_of_built_text.
+Theorem C18_decomposition_unique : forall media (b : bool) data media' (b' : bool) data',
+  Forall (fun c => mt_char c = true) media -> Forall (fun c => mt_char c = true) media' ->
+  DATA ++ media ++ (if b then B64 else []) ++ COMMA :: data = DATA ++ media' ++ (if b' then B64 else []) ++ COMMA :: data' ->
+  media = media' /\ b = b' /\ data = data'.
+Proof. exact dataurl_unique. Qed.
+Print Assumptions C18_decomposition_unique.
 
 Example C18_example :   (* data:a/b;base64,QQ== *)
   dparse [100;97;116;97;58;97;47;98;59;98;97;115;101;54;52;44;81;81;61;61]%N = Some (8, true, 16)
